@@ -36,7 +36,8 @@ static int tid = 0;                         // logical thread: 100 = consumer, o
 static std::size_t advance = 1000000;       // reads-from choice of the next load of another thread's variable
 static bool in_consume = false;
 static std::string problem;                 // mutex violation etc.
-static bool try_inside = false;             // an action of another thread is being attempted while the consumer holds the mutex
+static bool try_inside = false;
+static bool cas_spurious = false;           // the next compare_exchange_weak fails spuriously (C++11 allows it)             // an action of another thread is being attempted while the consumer holds the mutex
 static std::function<void()> hookA;         // before the closed test of the next channel
 static std::function<void()> hookB;         // before the consumer's load of the write index
 struct Hist { std::vector<std::uint64_t> vals; int owner = -1; std::size_t seen = 0; };
@@ -59,6 +60,20 @@ template <class T> struct verif_atomic
     return static_cast<T>(h.vals[idx]);
   }
   void store(T x, memory_order = memory_order_seq_cst) { h.owner = vs::tid; h.vals.push_back(static_cast<std::uint64_t>(x)); }
+  // read-modify-write operations act on the newest store (they read the last value in modification order)
+  bool compare_exchange_strong(T& expected, T desired, memory_order = memory_order_seq_cst, memory_order = memory_order_seq_cst)
+  {
+    const T cur = static_cast<T>(h.vals.back());
+    if (cur == expected) { h.vals.push_back(static_cast<std::uint64_t>(desired)); return true; }
+    expected = cur; return false;
+  }
+  bool compare_exchange_weak(T& expected, T desired, memory_order a = memory_order_seq_cst, memory_order b = memory_order_seq_cst)
+  {
+    if (vs::cas_spurious) { vs::cas_spurious = false; return false; }
+    return compare_exchange_strong(expected, desired, a, b);
+  }
+  T fetch_add(T x, memory_order = memory_order_seq_cst) { const T cur = static_cast<T>(h.vals.back()); h.vals.push_back(static_cast<std::uint64_t>(cur + x)); return cur; }
+  T exchange(T x, memory_order = memory_order_seq_cst) { const T cur = static_cast<T>(h.vals.back()); h.vals.push_back(static_cast<std::uint64_t>(x)); return cur; }
 };
 struct verif_would_block {};
 struct verif_mutex
@@ -224,6 +239,15 @@ SITE(6, info)
 #line 107 "file7.cpp"
 SITE(7, trace)
 #line 300 "drv_session.cpp"
+// a log statement as the unbraced then-branch of an if with an else (sites 8 and 9)
+static void fx(binlog::SessionWriter& w, std::uint64_t clock, int arg, bool cond)
+{
+#line 108 "file8.cpp"
+  if (cond) BINLOG_CREATE_SOURCE_AND_EVENT_IF(w, binlog::Severity::debug, cat8, clock, "msg 8 {}", arg_value(arg));
+#line 109 "file9.cpp"
+  else BINLOG_CREATE_SOURCE_AND_EVENT_IF(w, binlog::Severity::error, cat9, clock, "msg 9 {}", arg_value(arg));
+}
+#line 330 "drv_session.cpp"
 typedef void (*SiteFn)(binlog::SessionWriter&, std::uint64_t, int);
 static SiteFn g_sites[] = {fn0, fn1, fn2, fn3, fn4, fn5, fn6, fn7};
 
@@ -375,6 +399,16 @@ struct Runner
       g_sites[std::stoul(f[3]) % 8](*it->second, std::stoull(f[5]), v);
       return g_evals != before ? "b1" : "b0";
     }
+    if (op == "lx")
+    {
+      // lx:<w>:<k>:<cond>:<clock>:<args>
+      auto it = writers.find(std::stoi(f[1])); if (it == writers.end()) return "b0";
+      vs::tid = it->first; vs::advance = 1000000;
+      const std::string args = unhex(f[5]); int v = 0; memcpy(&v, args.data(), std::min<std::size_t>(4, args.size()));
+      const int before = g_evals;
+      fx(*it->second, std::stoull(f[4]), v, f[3] == "1");
+      return g_evals != before ? "b1" : "b0";
+    }
     if (op == "cl") { const int w = std::stoi(f[1]); vs::tid = w; writers.erase(w); return "-"; }
     if (op == "as")
     {
@@ -385,6 +419,7 @@ struct Runner
     }
     if (op == "cs") { vs::tid = 99; session.setClockSync(binlog::ClockSync{std::stoull(f[1]), std::stoull(f[2]), std::stoull(f[3]), std::int32_t(std::uint32_t(std::stoull(f[4]))), unhex(f[5])}); return "-"; }
     if (op == "ms") { vs::tid = 99; session.setMinSeverity(static_cast<binlog::Severity>(std::stoul(f[1]))); return "-"; }
+    if (op == "mw") { vs::tid = 99; vs::cas_spurious = true; session.setMinSeverity(static_cast<binlog::Severity>(std::stoul(f[1]))); vs::cas_spurious = false; return "-"; }
     if (op == "co") { return consume(f.size() > 1 ? f[1] : std::string()); }
     if (op == "cf") { return consume(std::string(), std::stoull(f[1])); }       // consume into a sink whose f[1]-th write fails
     if (op == "cb")
@@ -439,7 +474,7 @@ int main()
   std::string line;
   while (std::getline(std::cin, line))
   {
-    if (line.find(" lg:") != std::string::npos || line.find("|s") != std::string::npos || line.find(",s") != std::string::npos)
+    if (line.find(" lg:") != std::string::npos || line.find(" lx:") != std::string::npos || line.find("|s") != std::string::npos || line.find(",s") != std::string::npos)
     {
       // log statement sites keep their source id in a function-local static: one process per case
       std::cout.flush();
